@@ -143,7 +143,18 @@ def whileloop(I, st, env, s, frame):
 
 
 # ---------------------------------------------------------------------- parameter-word loops
+_ALPHA = {}
+
+
 def _alphabet(body):
+    key = id(body)
+    if key in _ALPHA:
+        return _ALPHA[key]
+    r = _ALPHA[key] = _alphabet_compute(body)
+    return r
+
+
+def _alphabet_compute(body):
     letters = set()
     for n in ast.walk(ast.Module(body=body, type_ignores=[])):
         if isinstance(n, ast.Constant) and isinstance(n.value, str) and len(n.value) == 1 and n.value.isalpha():
